@@ -2,6 +2,7 @@
 // @id C14.delete_selection
 // @engine B
 // @entry vfh_C14_delete_selection
+// @shared_state_watch
 // @tier Q
 // @reach delete.second_read
 // @funcs StorageBinList::Read; StorageBinList::SetAll; StorageBinList::TransferAll; StorageBinListItem::Augment; CParser::get_option
